@@ -45,7 +45,16 @@ class Suite:
 
     def check(self, sc, meta=None, nontrivial=None, judge_extra=None, probe=None, compare=True, refine=None):
         res = self.res
-        impl = dsl.run_impl(sc, self.kind)
+        try:
+            impl = dsl.run_impl(sc, self.kind)
+        except Exception as e:    # noqa
+            # the scenario could not even be set up on the implementation (a constructor refused valid arguments,
+            # an attribute is gone, ...): that is a finding about the implementation, not a failure of the check
+            res.evaluations += 1
+            res.violation({'clause': 'scenario-setup-failed'},
+                          'the implementation failed while setting up / running the scenario outside of the simulation: %s: %s'
+                          % (type(e).__name__, str(e)[:200]), {'scenario': sc, 'kind': self.kind})
+            return {'events': [], 'outcome': 'crash 99', 'final': '0', 'unfinished': [], 'obs': ''}
         res.evaluations += 1
         case = {'scenario': sc, 'kind': self.kind}
         if meta:
